@@ -230,7 +230,7 @@ pub fn run_case(c: &Case) -> Result<(), Fail> {
     }
     if c.with_generated {
         let probe = svc::Probe::default();
-        ifaces.push(Box::new(svc::org_verif_test::new(Box::new(svc::TestImpl { probe }))));
+        ifaces.push(Box::new(svc::org_verif_test::new(Box::new(svc::TestImpl { probe, echo_upgraded: false }))));
         ifaces.push(Box::new(svc::org_verif::new(Box::new(svc::EchoOnly))));
         ifaces.push(Box::new(svc::org_verif_test_2::new(Box::new(svc::EchoOnly))));
         ifaces.push(Box::new(svc::org_verif_test_upper::new(Box::new(svc::EchoOnly))));
